@@ -703,8 +703,14 @@ def canon_callee(callee: str) -> str:
     k = c.find('<impl ')
     while k >= 0:
         e = _match_angle(c, k)
-        inner = strip_generics(c[k + 6:e].strip()).lstrip('&').strip()
-        c = c[:k] + inner.split('::')[-1] + c[e + 1:]
+        inner = c[k + 6:e].strip()
+        if inner.startswith('['):
+            rep = 'slice'
+        elif inner.startswith('*'):
+            rep = 'ptr'
+        else:
+            rep = strip_generics(inner).lstrip('&').strip().split('::')[-1]
+        c = c[:k] + rep + c[e + 1:]
         k = c.find('<impl ')
     if c.startswith('<'):
         e = _match_angle(c, 0)
